@@ -10,6 +10,20 @@ FIXTURE_COMPS = {'ok': [0x11, 0x11], 'ok_lead0': [0x0A, 0x0B], 'ok_letters': [0x
 BROKEN_COMPS = [[0x88, 0x88], [0x88, 0x89], [0x88, 0x8A], [0x88, 0x8B]]
 
 
+def served_comps():
+    """every component id some fixture user-data parser module serves (read off the fixture directory)"""
+    import os
+    d = os.path.join(os.path.dirname(os.path.abspath(__file__)), 'fixtures', 'plugins', 'udparsers')
+    out = []
+    for n in os.listdir(d):
+        if len(n) == 5:
+            try:
+                out.append([int(n[1:3], 16), int(n[3:5], 16)])
+            except ValueError:
+                pass
+    return out
+
+
 def sec_view(pel, s):
     creator = s['creator'] if s['kind'] == 'ED' else pel['ph']['creator']
     return dict(kind=s['kind'], creator=creator, comp=s['comp'], sub=s['sub'], ver=s['ver'],
